@@ -1,6 +1,6 @@
 SPECIFICATION Spec
 CONSTANTS
-  MaxOps = 4
+  MaxOps = 5
   MaxT = 3
   Emit = FALSE
 INVARIANTS
